@@ -211,6 +211,10 @@ func kindValue(kind string) interface{} {
 	case "repeated-maps":
 		return []interface{}{map[string]interface{}{"target": "/t", "source": "s1", "type": "volume"}, map[string]interface{}{"target": "/t", "source": "s2", "type": "volume"},
 			map[string]interface{}{"target": "/u", "source": "s1", "type": "volume"}, map[string]interface{}{"target": "/u", "source": "s2", "type": "volume"}}
+	case "list-of-ints":
+		return []interface{}{1}
+	case "yes-string": // a YAML 1.1 boolean spelling: a string for the parser, a boolean after interpolation's type cast
+		return "yes"
 	case "reset-tag":
 		return rawYAML("!reset null")
 	case "override-tag":
@@ -503,7 +507,7 @@ func C01(c *core.Ctx) {
 	pp := filepath.Join(c.Work, "paths.ndjson")
 	_ = core.WriteNDJSON(pp, precs)
 	dump := filepath.Join(c.Work, "space")
-	rs, err := c.RunTLC(core.TLCOpts{Module: "MC_Totality", Env: map[string]string{"PATHS": pp}, Dump: dump, Timeout: 30 * time.Minute, Name: "space"})
+	rs, err := c.RunTLC(core.TLCOpts{Module: "MC_Totality", Env: map[string]string{"PATHS": pp, "ROT": fmt.Sprint(c.Seed % 11)}, Dump: dump, Timeout: 30 * time.Minute, Name: "space"})
 	if err != nil {
 		c.Inconclusive("MC_Totality failed: " + err.Error())
 		return
@@ -529,6 +533,13 @@ func C01(c *core.Ctx) {
 			kind, pos := asStr(cs["kind"]), asStr(cs["position"])
 			doc := flowYAML(graft(sp.Path, kindValue(kind)))
 			cc := c01Case{ID: id, Family: "kind", Desc: fmt.Sprintf("%s = %s [%s]", strings.Join(sp.Path, "."), kind, pos), Expect: asStr(cs["expect"]), Files: map[string]string{}}
+			for _, o := range asList(cs["opts"]) {
+				cc.Switches = append(cc.Switches, asStr(o))
+			}
+			if len(cc.Switches) > 0 {
+				sort.Strings(cc.Switches)
+				cc.Desc += " " + strings.Join(cc.Switches, "+")
+			}
 			underSvc := len(sp.Path) > 2 && sp.Path[0] == "services"
 			switch pos {
 			case "single":
@@ -564,6 +575,25 @@ func C01(c *core.Ctx) {
 				gi["include"] = []interface{}{"inc.yaml"}
 				cc.Files["compose.yaml"] = flowYAML(gi)
 				cc.Files["inc.yaml"] = "services:\n  i: {image: img}\nnetworks:\n  ni: {}\nvolumes:\n  vi: {}\nsecrets:\n  si: {file: ./s}\nconfigs:\n  ci: {file: ./c}\n"
+				cc.Main = []string{"compose.yaml"}
+				cc.Expect = "either"
+			case "extended-file-base":
+				g := graft(sp.Path, kindValue(kind))
+				svcs, _ := g["services"].(map[string]interface{})
+				if svcs == nil {
+					if _, has := g["services"]; has {
+						return nil // the case value is the services section itself
+					}
+					svcs = map[string]interface{}{}
+					g["services"] = svcs
+				}
+				svcs["base0"] = map[string]interface{}{"image": "img"}
+				ref := "base0"
+				if underSvc {
+					ref = "a"
+				}
+				cc.Files["other.yaml"] = flowYAML(g)
+				cc.Files["compose.yaml"] = flowYAML(map[string]interface{}{"services": map[string]interface{}{"m": map[string]interface{}{"extends": map[string]interface{}{"file": "other.yaml", "service": ref}, "image": "img"}}})
 				cc.Main = []string{"compose.yaml"}
 				cc.Expect = "either"
 			case "extended-base", "extending":
